@@ -145,7 +145,14 @@ def value2bits (n : Node) : Nat :=
   let e := n.enc
   let iv : Int :=
     match e.type with
-    | .numeric => (valueBits n : Int)
+    | .numeric =>
+      -- an INT64 value of an element wider than 32 bits is taken as it is (`ival = bufr_value_get_int64`), so
+      -- that -1 is recognised as "missing" below whatever the width
+      if e.nbits > 32 ∧ e.ref = 0 ∧ e.scale = 0 then
+        match n.val with
+        | .i64 v => v
+        | _ => (valueBits n : Int)
+      else (valueBits n : Int)
     | .chngRef => (valueBits n : Int)
     | .codetable | .flagtable => let v := n.val.getInt64; if v < -1 then -1 else v
     | _ => 0
